@@ -69,7 +69,7 @@ EmbT(n, t)     == <<n, <<t>>, ST(n), TRUE>>         \* embedded struct with a js
 EmbC(n, l)     == <<n, <<n, l>>, ST(n), TRUE>>      \* embedded struct, untagged
 
 StructNames == {"ZvLeaf", "ZvOdd", "ZvBox", "ZvBase", "ZvDeep", "ZvBase2", "ZvNode", "ZvWrap", "ZvHost",
-                "ZvPair", "ZvEmb",
+                "ZvPair", "ZvEmb", "ZvL4", "ZvL3", "ZvL2", "ZvTower",
                 "Person", "Event", "Wings", "Plane", "Snoopy", "Hornet", "Hellcat", "Weather",
                 "SetOfPlanes", "NestOuter", "NestInner"}
 
@@ -96,6 +96,12 @@ StructDecl(S) ==
     [] S = "ZvPair" -> << Tag("A", "a", P("ZvLeaf")), Tag("B", "b", IFc("ZvAny")), Tag("L", "l", B("string")),
                           Tag("Data", "data", BYT) >>
     [] S = "ZvEmb"  -> << EmbC("ZvBase", "zvBase"), Tag("X", "x", B("string")), Tag("Y", "y", B("int")) >>
+    (* four levels of anonymous embedding: ZvTower > ZvL2 > ZvL3 > ZvL4 *)
+    [] S = "ZvL4"   -> << Tag("D1", "d1", B("int")), Tag("D2", "d2", B("int")), Tag("DS", "ds", B("string")),
+                          Tag("D3", "d3", B("int")), Tag("DP", "dp", P("ZvLeaf")) >>
+    [] S = "ZvL3"   -> << EmbC("ZvL4", "zvL4"), Tag("C1", "c1", B("string")), Tag("C2", "c2", B("int")) >>
+    [] S = "ZvL2"   -> << EmbC("ZvL3", "zvL3"), Tag("B1", "b1", B("int")) >>
+    [] S = "ZvTower" -> << EmbC("ZvL2", "zvL2"), Tag("A1", "a1", B("string")), Tag("Ref", "ref", IFc("ZvAny")) >>
     (* the library's demo structs (zygo/demo_go_structs.go) *)
     [] S = "Person" -> << Tag("First", "first", B("string")), Tag("Last", "last", B("string")) >>
     [] S = "Event"  -> << Tag("Id", "id", B("int")), Tag("User", "user", ST("Person")), Tag("Flight", "flight", B("string")),
@@ -118,12 +124,12 @@ StructTab == [S \in StructNames |-> StructDecl(S)]
 StructOf(S) == StructTab[S]
 
 (* registered record type name -> struct *)
-RegNames == {"zvleaf", "zvodd", "zvbox", "zvnode", "zvwrap", "zvhost", "zvpair", "zvemb",
+RegNames == {"zvleaf", "zvodd", "zvbox", "zvnode", "zvwrap", "zvhost", "zvpair", "zvemb", "zvtower",
              "persondemo", "eventdemo", "snoopy", "hornet", "hellcat", "weather", "plane", "setOfPlanes",
              "nestouter", "nestinner"}
 RegOf(n) ==
   CASE n = "zvleaf" -> "ZvLeaf" [] n = "zvodd" -> "ZvOdd" [] n = "zvbox" -> "ZvBox" [] n = "zvnode" -> "ZvNode"
-    [] n = "zvwrap" -> "ZvWrap" [] n = "zvhost" -> "ZvHost" [] n = "zvpair" -> "ZvPair" [] n = "zvemb" -> "ZvEmb"
+    [] n = "zvwrap" -> "ZvWrap" [] n = "zvhost" -> "ZvHost" [] n = "zvpair" -> "ZvPair" [] n = "zvemb" -> "ZvEmb" [] n = "zvtower" -> "ZvTower"
     [] n = "persondemo" -> "Person" [] n = "eventdemo" -> "Event" [] n = "snoopy" -> "Snoopy"
     [] n = "hornet" -> "Hornet" [] n = "hellcat" -> "Hellcat" [] n = "weather" -> "Weather" [] n = "plane" -> "Plane"
     [] n = "setOfPlanes" -> "SetOfPlanes" [] n = "nestouter" -> "NestOuter" [] n = "nestinner" -> "NestInner"
@@ -140,7 +146,7 @@ AliasTab == [S \in StructNames |-> {RegNameOf(S), PkgOf(S) \o "." \o S}
 Aliases(S) == AliasTab[S]
 
 IfaceNames == {"ZvAny", "Flyer"}
-Impl(I) == CASE I = "ZvAny" -> {"ZvLeaf", "ZvOdd", "ZvBox", "ZvNode", "ZvWrap", "ZvPair", "ZvEmb"}
+Impl(I) == CASE I = "ZvAny" -> {"ZvLeaf", "ZvOdd", "ZvBox", "ZvNode", "ZvWrap", "ZvPair", "ZvEmb", "ZvTower"}
              [] I = "Flyer" -> {"Snoopy", "Hornet", "Hellcat"}
              [] OTHER -> {}
 
